@@ -134,7 +134,7 @@ pub fn note_progress(out: &str, stream: &str, what: &str) {
 }
 
 /// parent side: runs `vh <stream>-child` over the cases; when the child dies (abort, stack overflow) or makes no
-/// progress for 20 s (hang), the case it was on gets the outcome `{"abort": ...}` and a new child continues
+/// progress for 120 s (hang), the case it was on gets the outcome `{"abort": ...}` and a new child continues
 pub fn run_in_children(opts: &Opts, stream: &str, cases: &[Value]) -> Vec<Value> {
     use std::time::Duration;
     std::fs::create_dir_all(&opts.out).unwrap();
@@ -168,7 +168,8 @@ pub fn run_in_children(opts: &Opts, stream: &str, cases: &[Value]) -> Vec<Value>
                         idle = 0;
                         last = n;
                     }
-                    if idle > 400 {
+                    // 120 s without a finished case: on a machine loaded by other jobs a deep parse can take tens of seconds
+                    if idle > 2400 {
                         let _ = ch.kill();
                         let _ = ch.wait();
                         break None;
@@ -180,7 +181,7 @@ pub fn run_in_children(opts: &Opts, stream: &str, cases: &[Value]) -> Vec<Value>
         outs.extend(done);
         if outs.len() < cases.len() {
             let why = match status {
-                None => "no progress for 20 s (hang)".to_string(),
+                None => "no progress for 120 s (hang)".to_string(),
                 Some(s) => {
                     use std::os::unix::process::ExitStatusExt;
                     match s.signal() {
